@@ -382,7 +382,8 @@ pub fn gen_plan(rng: &mut Rng, k: &HistKnobs) -> HistPlan {
         let mut recent: Vec<Vec<char>> = vec![];
         // swarm: each client draws its own operation mix
         let w_update = if k.update_heavy { 400 } else if k.focus == Focus::C05 { rng.range(20, 60) } else { rng.range(8, 30) };
-        let w_ctor = rng.range(0, 6);
+        // (a constructor replaces the object: soak histories, which are about ONE object, use none)
+        let w_ctor = if k.update_heavy { 0 } else { rng.range(0, 6) };
         let w_reset = rng.range(0, 12);
         let w_predict = if k.focus == Focus::C05 { rng.range(2, 25) } else { rng.range(10, 40) };
         let w_fill = if k.mega { 40 } else { rng.range(0, 25) };
